@@ -91,12 +91,20 @@ pub fn c0_str(v: &str) -> Result<(), CErr> {
 // ---- Vec<i32>
 pub fn s0_vec(mut v: Vec<i32>) -> Vec<i32> { v.reverse(); v }
 pub fn s1_vec(mut v: Vec<i32>) -> Vec<i32> { v.truncate(3); v }
-pub fn s2_vec(v: Vec<i32>) -> Vec<i32> { v.into_iter().map(|x| x.wrapping_abs()).collect() }
+pub fn s2_vec(mut v: Vec<i32>) -> Vec<i32> { v.push(0); v }
 pub fn p0_vec(v: &Vec<i32>) -> bool { !v.is_empty() }
 pub fn p1_vec(v: &Vec<i32>) -> bool { v.iter().all(|x| *x >= 0) }
 pub fn c0_vec(v: &Vec<i32>) -> Result<(), CErr> {
     if v.len() > 3 { Err(CErr(v.len() as i64)) } else { Ok(()) }
 }
+// ---- generic Vec<T>
+pub fn s0_gvec<T>(mut v: Vec<T>) -> Vec<T> { v.reverse(); v }
+pub fn s1_gvec<T>(mut v: Vec<T>) -> Vec<T> { v.truncate(3); v }
+pub fn p0_gvec<T>(v: &Vec<T>) -> bool { !v.is_empty() }
+// ---- regex statics
+pub static RE0: std::sync::LazyLock<regex::Regex> = std::sync::LazyLock::new(|| regex::Regex::new("^[a-z]+$").unwrap());
+pub static RE1: std::sync::LazyLock<regex::Regex> = std::sync::LazyLock::new(|| regex::Regex::new("@").unwrap());
+pub static RE2: std::sync::LazyLock<regex::Regex> = std::sync::LazyLock::new(|| regex::Regex::new("^.{2,4}$").unwrap());
 '''
 
 FLOAT = r'''
@@ -141,4 +149,6 @@ def fn_suffix(inner):
         return "str"
     if inner in INT_TYPES or inner in ("f32", "f64"):
         return inner
+    if inner == "Vec<T>":
+        return "gvec"
     return "vec"
